@@ -32,12 +32,12 @@ def ids(args):
     return [a for a in all_ids if not args or a in args or a.split('-')[0] in args]
 
 
-def do_import(src, prop):
+def do_import(src, prop, tag=''):
     for m in sorted(os.listdir(src)):
         d = os.path.join(src, m)
         if not os.path.isfile(os.path.join(d, 'patch.diff')):
             continue
-        dst = os.path.join(SEEDED, '%s-%s' % (prop, m))
+        dst = os.path.join(SEEDED, '%s-%s%s' % (prop, tag, m))
         os.makedirs(dst, exist_ok=True)
         for f in ('patch.diff', 'demo.py', 'meta.json'):
             if os.path.isfile(os.path.join(d, f)):
@@ -121,7 +121,7 @@ def do_run(which, tier='quick'):
 if __name__ == '__main__':
     cmd = sys.argv[1]
     if cmd == 'import':
-        do_import(sys.argv[2], sys.argv[3])
+        do_import(sys.argv[2], sys.argv[3], sys.argv[4] if len(sys.argv) > 4 else '')
     elif cmd == 'verify':
         do_verify(ids(sys.argv[2:]))
     elif cmd == 'run':
